@@ -287,6 +287,41 @@ def prop_monitor(prop, gen, script, iout, pid0=0, mout=None):
     return msgs
 
 
+def subscriber_send_scripts(ck, tier: str) -> None:
+    """C07 with a connection subscriber that sends on the connected notification (what the API
+    classes do), faults placed on exactly those sends.  Such sends are outside the stimulus
+    alphabet of the socket model, so these scripts are judged by the healing monitor alone: after
+    the network recovers the client must be connected, receive a frame and transmit a command."""
+    rng = random.Random(ck.seed * 877 + 7)
+    n = 0
+    for gen in (4, 5):
+        for _ in range(60 if tier == "quick" else 1500):
+            pre = [("subsend", rng.choice([0, 1, 4]), rng.choice([0, 2]))]
+            if rng.random() < 0.7:
+                pre.append(("failw",))
+            pre += [("open",), ("adv", 1)]
+            for _k in range(rng.choice([0, 1, 3])):
+                pre.append(rng.choice([("failw",), ("rst",), ("adv", rng.choice([1, 2048, 3000])), ("eof",), ("bad", rng.randrange(3)),
+                                       ("net", rng.random() < 0.6, rng.choice([1, 5]))]))
+            script = pre + [("subsend", -1, 0)] + PROBE
+            pid0, out = sockcorr.run_impl(gen, script)
+            n += 1
+            ck.count()
+            if any(evs == [("tie",)] for evs in out) or len(out) != len(script):
+                continue
+            d_ok, w_ok = probe_ok(out)
+            bad = [e for evs in out for e in evs if e[0] in ("unhandled", "crash")]
+            if not d_ok or not w_ok or bad:
+                ck.violation("the client did not heal after a fault on a send made from the connected notification",
+                             {"kind": "socket-script-subscriber-send", "gen": gen, "script": [list(x) for x in script],
+                              "impl_trace": [[list(e) for e in evs] for evs in out],
+                              "monitor": [f"probe frame delivered: {d_ok}", f"probe command written: {w_ok}", f"errors: {bad}"],
+                              "trigger": {"class": "subscriber-send"},
+                              "replay_cmd": f"cd /verif && PYTHONPATH=/repo:/verif /venv/bin/python -m harness.sockrun {gen} '{sockcorr.fmt(script)}'"})
+                break
+    ck.extra["subscriber_send_scripts"] = n
+
+
 # ---------------------------------------------------------------------------- scripts
 def gen_scripts(prop: str, tier: str, rng: random.Random, gen: int):
     scripts = []
@@ -449,6 +484,8 @@ def run_check(prop: str, tier: str, replay: str | None) -> int:
     if prop in ("C01", "C02"):
         from . import check_backpressure
         check_backpressure.run(ck, prop, tier)
+    if prop == "C07":
+        subscriber_send_scripts(ck, tier)
     ck.sample({"script": sockcorr.fmt(work[0][1][min(50, len(work[0][1]) - 1)])})
     ck.sample({"script": sockcorr.fmt(work[-1][1][-1])[:600]})
     return ck.finish()
